@@ -190,6 +190,10 @@ def run(case, filter_factory=DirectFilter, stop_on_exception=True, observer=None
     ["g", cmd] | ["at", cmd, params, streaming?] | ["reg", region]."""
     config = case.get("config", {})
     regions = [dict(r) for r in case.get("regions", [])]
+    if case.get("via") == "plugin" and filter_factory is DirectFilter:
+        # same case through the plugin object and its queuing hooks (settings splitting, OctoPrint's code extraction)
+        from .plugin_harness import PluginFilter
+        filter_factory = PluginFilter
     flt = filter_factory(config, regions)
     g90e = bool(config.get("g90e"))
     pu = Printer(g90e)
